@@ -53,14 +53,14 @@ func init() {
 		Rule:       "as C01 with Byzantine leaders proposing blocks every correct validator rejects (view 0, inside NEW_VIEWs) and per-node consumer rejections; non-trivial = a commit was judged in a case where a bad block had been proposed",
 		Floors:     map[string]int{"C04 commits judged": 1000, "adv badBlock": 500},
 		Judged:     []string{"C04 commits judged"}})
-	reg(&sim.SimCheck{Prop: "C07", Workload: "c07", Profile: advProfile(map[string]int{"forgedNV": 20, "twistedNV": 20, "barePP": 8, "mutate": 30, "crossInstance": 12}, 450, 2),
+	reg(&sim.SimCheck{Prop: "C07", Workload: "c07", Profile: withOpts(advProfile(map[string]int{"forgedNV": 20, "twistedNV": 20, "barePP": 8, "mutate": 30, "crossInstance": 12}, 450, 2), func(p *sim.Profile) { p.MinN = 5 }),
 		QuickCases: 5000, ThoroughCases: 100000,
 		NonTrivial: func(r *sim.Result) bool { return r.Stats["C07 prepares judged"]+r.Stats["C07 adoptions judged"] > 0 },
 		Rule:       "adversarial cases rich in forged / twisted NEW_VIEWs and bare PREPREPAREs; every PREPARE sent and every proposal stored by a correct node in a view above 0 is judged against the reference NEW_VIEW validator; non-trivial = at least one such act was judged",
 		Floors:     map[string]int{"C07 prepares judged": 500, "C07 leader proposals judged": 200, "adv forgedNV": 1000},
 		Judged:     []string{"C07 prepares judged", "C07 adoptions judged", "C07 leader proposals judged"},
 		Extra:      scriptedBare("C07")})
-	reg(&sim.SimCheck{Prop: "C08", Workload: "c08", Profile: advProfile(merge(noBare, map[string]int{"mutate": 60, "outsider": 15, "vcGames": 12}), 400, 2),
+	reg(&sim.SimCheck{Prop: "C08", Workload: "c08", Profile: advProfile(merge(noBare, map[string]int{"mutate": 60, "outsider": 15, "vcGames": 12, "hugeView": 8, "twistedNV": 8}), 400, 2),
 		QuickCases: 5000, ThoroughCases: 100000,
 		NonTrivial: func(r *sim.Result) bool {
 			return r.Stats["C08 must-ignore deliveries"] > 0 && r.Stats["delivered adversarial"] > 0
@@ -68,7 +68,7 @@ func init() {
 		Rule:   "adversarial cases rich in field-by-field mutations of wire messages, outsiders and vote games; every Store* call is judged for authenticity and every delivery the reference says must be ignored is checked for effects; non-trivial = adversarial must-ignore deliveries were judged",
 		Floors: map[string]int{"C08 stores judged": 20000, "C08 must-ignore deliveries": 20000, "adv mutate": 5000},
 		Judged: []string{"C08 stores judged", "C08 deliveries judged", "C08 must-ignore deliveries"}})
-	reg(&sim.SimCheck{Prop: "C09", Workload: "c09", Profile: advProfile(merge(noBare, map[string]int{"vcGames": 25, "support": 20, "equivocate": 8}), 600, 2),
+	reg(&sim.SimCheck{Prop: "C09", Workload: "c09", Profile: withOpts(advProfile(merge(noBare, map[string]int{"vcGames": 25, "support": 20, "equivocate": 8}), 600, 2), func(p *sim.Profile) { p.CommErrors = true }),
 		QuickCases: 5000, ThoroughCases: 100000,
 		NonTrivial: func(r *sim.Result) bool {
 			return r.Stats["C09 locked view changes judged"] > 0 || r.Stats["C09 new views re-proposing a lock"] > 0
@@ -76,13 +76,13 @@ func init() {
 		Rule:   "adversarial and honest cases with many timeouts; every VIEW_CHANGE a correct node sends after having been prepared and every NEW_VIEW a correct leader sends is judged against its own input history; non-trivial = a locked VIEW_CHANGE or a lock-re-proposing NEW_VIEW was judged",
 		Floors: map[string]int{"C09 locked view changes judged": 2000, "C09 new views judged": 1000, "C09 new views re-proposing a lock": 200},
 		Judged: []string{"C09 locked view changes judged", "C09 new views judged", "C09 new views re-proposing a lock"}})
-	reg(&sim.SimCheck{Prop: "C10", Workload: "c10", Profile: advProfile(merge(noBare, map[string]int{"equivocate": 20, "support": 25, "mutate": 20}), 500, 2),
+	reg(&sim.SimCheck{Prop: "C10", Workload: "c10", Profile: withOpts(advProfile(merge(noBare, map[string]int{"equivocate": 20, "support": 25, "mutate": 20}), 500, 2), func(p *sim.Profile) { p.CommErrors, p.CommitFailures = true, true }),
 		QuickCases: 5000, ThoroughCases: 100000,
 		NonTrivial: func(r *sim.Result) bool { return r.Forky && r.Stats["C10 commits judged"] > 0 },
 		Rule:       "adversarial cases with conflicting proposals, duplicated and re-ordered deliveries; every message a correct node sends is judged (single-valued signatures per (h,v), phase order, view order); non-trivial = conflicting proposals were on the wire and a COMMIT of a correct node was judged",
 		Floors:     map[string]int{"C10 commits judged": 2000, "C10 prepares judged": 4000, "C10 view changes judged": 4000},
 		Judged:     []string{"C10 proposals judged", "C10 prepares judged", "C10 commits judged", "C10 view changes judged", "C10 commits by commit quorum"}})
-	reg(&sim.SimCheck{Prop: "C11", Workload: "c11", Profile: advProfile(merge(noBare, map[string]int{"vcGames": 25, "outsider": 12, "support": 20, "mutate": 20}), 600, 2),
+	reg(&sim.SimCheck{Prop: "C11", Workload: "c11", Profile: withOpts(advProfile(merge(noBare, map[string]int{"vcGames": 25, "outsider": 12, "support": 20, "mutate": 20, "hugeView": 6}), 600, 2), func(p *sim.Profile) { p.CommitteeErrors = true }),
 		QuickCases: 5000, ThoroughCases: 100000,
 		NonTrivial: func(r *sim.Result) bool {
 			return r.Stats["C11 judged NEW_VIEW"] > 0 && r.Stats["delivered adversarial"] > 0
@@ -185,6 +185,14 @@ func scriptedBare(prop string) func(run *harness.Run) ([]harness.Finding, map[st
 	return func(run *harness.Run) ([]harness.Finding, map[string]interface{}, []string) {
 		r := sim.ScriptBarePreprepareFork()
 		return sim.ScriptedFindings(prop, "bare-preprepare-fork", r), map[string]interface{}{"scripted_known_finding_scenario": "4 equal members, Byzantine leader of view 1 sends a standalone PREPREPARE to two nodes that timed out of view 0 while prepared; they commit it although a third node committed the view-0 block", "scripted_steps": r.Steps}, nil
+	}
+}
+
+func withOpts(f func(bool) *sim.Profile, opt func(p *sim.Profile)) func(bool) *sim.Profile {
+	return func(th bool) *sim.Profile {
+		p := f(th)
+		opt(p)
+		return p
 	}
 }
 
